@@ -103,3 +103,41 @@ pub fn err_s<T>(r: &Result<T, Error>) -> String {
         Err(e) => format!("Err({:?})", e),
     }
 }
+
+/// Shorter stand-ins for an octet string: what a "large input" shortcut inside the library could hash the
+/// data down to before binding it (generic digests, and the suite's own expand_message / hash_to_scalar under the
+/// domain-separation tags the library uses). A statement in which a long header / message / presentation header
+/// is replaced by one of these is a different statement and has to be refused.
+pub fn digests_of(suite: crate::gen::SuiteId, data: &[u8]) -> Vec<(String, Vec<u8>)> {
+    use sha2::Digest as _;
+    use sha3::digest::{ExtendableOutput, Update, XofReader};
+    let mut out: Vec<(String, Vec<u8>)> = vec![
+        ("sha256".into(), sha2::Sha256::digest(data).to_vec()),
+        ("sha384".into(), sha2::Sha384::digest(data).to_vec()),
+        ("sha512".into(), sha2::Sha512::digest(data).to_vec()),
+        ("sha3-256".into(), sha3::Sha3_256::digest(data).to_vec()),
+    ];
+    for n in [32usize, 48, 64] {
+        let mut h = sha3::Shake256::default();
+        h.update(data);
+        let mut buf = vec![0u8; n];
+        h.finalize_xof().read(&mut buf);
+        out.push((format!("shake256/{}", n), buf));
+    }
+    let r = crate::refimpl::Ref::new(suite);
+    for (an, api) in [("api", r.api_id()), ("blind-api", r.api_id_blind())] {
+        for sfx in ["H2S_", "MAP_MSG_TO_SCALAR_AS_HASH_"] {
+            let dst = [api.as_slice(), sfx.as_bytes()].concat();
+            for n in [32usize, 48, 64] {
+                if let Ok(x) = r.expand_message(data, &dst, n) {
+                    out.push((format!("expand_message({}{})/{}", an, sfx, n), x));
+                }
+            }
+            if let Ok(s) = r.h2s(data, &dst) {
+                out.push((format!("hash_to_scalar({}{})", an, sfx), crate::refimpl::scalar_bytes(&s).to_vec()));
+            }
+        }
+    }
+    out.retain(|(_, d)| d.as_slice() != data);
+    out
+}
